@@ -151,6 +151,9 @@ func (r *runner) round(ctx context.Context, rnd *hx.Rand, round int) error {
 		{"dup-identity,share1=random", func(m *p2pmsg.DecryptionKeyShares) {
 			m.Shares[1] = &p2pmsg.KeyShare{IdentityPreimage: m.Shares[0].IdentityPreimage, Share: otherShare.Share}
 		}},
+		{"share0+small-order-point", func(m *p2pmsg.DecryptionKeyShares) { m.Shares[0].Share = plusSmallOrder(m.Shares[0].Share) }},
+		{"share1+small-order-point", func(m *p2pmsg.DecryptionKeyShares) { m.Shares[1].Share = plusSmallOrder(m.Shares[1].Share) }},
+		{"share0=on-curve-outside-G1", func(m *p2pmsg.DecryptionKeyShares) { m.Shares[0].Share = outsideG1().Compress() }},
 		{"share0=random", func(m *p2pmsg.DecryptionKeyShares) { m.Shares[0].Share = rnd.Bytes(len(m.Shares[0].Share)) }},
 		{"share0=truncated", func(m *p2pmsg.DecryptionKeyShares) { m.Shares[0].Share = m.Shares[0].Share[:len(m.Shares[0].Share)-1] }},
 		{"share1=empty", func(m *p2pmsg.DecryptionKeyShares) { m.Shares[1].Share = nil }},
@@ -192,6 +195,8 @@ func (r *runner) round(ctx context.Context, rnd *hx.Rand, round int) error {
 			m.Keys = []*p2pmsg.Key{m.Keys[0], m.Keys[1], proto.Clone(m.Keys[0]).(*p2pmsg.Key)}
 		}},
 		{"key0=a-share", func(m *p2pmsg.DecryptionKeys) { m.Keys[0].Key = valid.Shares[0].Share }},
+		{"key0+small-order-point", func(m *p2pmsg.DecryptionKeys) { m.Keys[0].Key = plusSmallOrder(m.Keys[0].Key) }},
+		{"key1+small-order-point", func(m *p2pmsg.DecryptionKeys) { m.Keys[1].Key = plusSmallOrder(m.Keys[1].Key) }},
 		{"key0=random", func(m *p2pmsg.DecryptionKeys) { m.Keys[0].Key = rnd.Bytes(len(m.Keys[0].Key)) }},
 		{"key1=truncated", func(m *p2pmsg.DecryptionKeys) { m.Keys[1].Key = m.Keys[1].Key[:len(m.Keys[1].Key)-1] }},
 		{"key1=empty", func(m *p2pmsg.DecryptionKeys) { m.Keys[1].Key = nil }},
